@@ -45,6 +45,13 @@ pub enum Step {
     /// as after a wrap-around: move the id counter back so that the ids of past (completed, timed-out,
     /// abandoned, finished) operations are handed out again; whoever gets them must work normally
     Rewind(u8),
+    /// the reply / first entry is written at exactly the instant the timeout fires: either outcome is
+    /// right for the caller, and the driver sees the reply and the scrub request in the same turn
+    TimeoutTie { search: bool, adapted: bool },
+    /// the socket's send buffer is full while another request is being written, so the timed
+    /// operation times out while its request is still queued at the driver; then the buffer drains.
+    /// `answered`: whether the server (which does get the request in the end) ever answers it
+    TimeoutWhileQueued { search: bool, adapted: bool, answered: bool },
 }
 
 #[derive(Clone, Debug, Serialize, Deserialize)]
@@ -70,6 +77,8 @@ fn strat(_: &Ctx) -> BoxedStrategy<Case> {
         3 => prop_oneof![Just(AbandonTarget::Finished), Just(AbandonTarget::TimedOut), Just(AbandonTarget::InFlight), Just(AbandonTarget::NeverIssued)].prop_map(Step::Abandon),
         1 => (0u8..3).prop_map(Step::Unsolicited),
         3 => (1u8..6).prop_map(Step::Rewind),
+        2 => (any::<bool>(), any::<bool>()).prop_map(|(search, adapted)| Step::TimeoutTie { search, adapted }),
+        2 => (any::<bool>(), any::<bool>(), any::<bool>()).prop_map(|(search, adapted, answered)| Step::TimeoutWhileQueued { search, adapted, answered }),
     ];
     (vec(step, 3..=14), 1u8..=3, any::<u64>()).prop_map(|(steps, repeat, sched)| Case { steps, repeat, sched }).boxed()
 }
@@ -79,6 +88,8 @@ enum Plan {
     /// answer with these entries then a result with this code
     Answer { entries: u8, rc: u32, open: bool },
     Silent { late: bool },
+    /// answer (result, or one entry for a search) exactly `after_ms` after the request arrived
+    Tie { after_ms: u64 },
     /// open_page: the final result of this page index is withheld (and sent late)
     Paged { per_page: u8, pages: u8, open_page: Option<usize> },
 }
@@ -138,6 +149,19 @@ async fn server(wire: sim::Wire, sh: Arc<Mutex<Shared>>) {
                     }
                     Some(Plan::Silent { late }) => {
                         sh.lock().unwrap().silent_ids.push((m.id, tag, late));
+                    }
+                    Some(Plan::Tie { after_ms }) => {
+                        let w2 = wire.clone();
+                        let id = m.id;
+                        tokio::spawn(async move {
+                            tokio::time::sleep(Duration::from_millis(after_ms)).await;
+                            if tag == 5 {
+                                w2.push(&RespMsg::new(id, Resp::Entry(Entry::simple("cn=tie"))).encode());
+                                // the search is completed a little later whatever the caller saw
+                                tokio::time::sleep(Duration::from_millis(5)).await;
+                            }
+                            w2.push(&RespMsg::new(id, Resp::result(tag, Res::ok("tie"))).encode());
+                        });
                     }
                     Some(Plan::Paged { per_page, pages, open_page }) => {
                         for e in 0..per_page {
@@ -345,6 +369,66 @@ async fn do_step(cx: &mut Cx, step: &Step) -> Result<(), Fail> {
             let ab = cx.sh.lock().unwrap().abandons.clone();
             ensure!(ab.len() == before + 1 && ab[before] == target as i64, "c13:abandon-request", "abandon({}) put {:?} on the wire", target, &ab[before..]);
         }
+        Step::TimeoutTie { search, adapted } => {
+            let (_, mk) = cx.plan(Plan::Tie { after_ms: 50 });
+            cx.ldap.with_timeout(Duration::from_millis(50));
+            if *search {
+                let s = if *adapted { cx.ldap.streaming_search_with(EntriesOnly::new(), &mk, Scope::Subtree, "(a=b)", vec!["a"]).await } else { cx.ldap.streaming_search(&mk, Scope::Subtree, "(a=b)", vec!["a"]).await };
+                let mut s = match s {
+                    Ok(s) => s,
+                    Err(e) => fail!("c13:op-failed", "search start failed: {}", err_kind(&e)),
+                };
+                match s.next().await {
+                    Ok(Some(_)) => cx.notes.push("tie:search-item-won".into()),
+                    Err(ldap3::LdapError::Timeout { .. }) => cx.notes.push("tie:search-timeout-won".into()),
+                    other => fail!("c13:op-failed", "tied search next() returned {:?}", other.map(|o| o.is_some()).map_err(|e| err_kind(&e))),
+                }
+                cx.last_timed_out = Some(s.ldap_handle().last_id());
+                let _ = s.finish().await;
+            } else {
+                match simops::exec_single(&mut cx.ldap, Single::Delete, &mk).await {
+                    Ok(_) => cx.notes.push("tie:reply-won".into()),
+                    Err(ldap3::LdapError::Timeout { .. }) => cx.notes.push("tie:timeout-won".into()),
+                    Err(e) => fail!("c13:op-failed", "tied operation failed: {}", err_kind(&e)),
+                }
+                cx.last_timed_out = Some(cx.ldap.last_id());
+            }
+            // let the rest of the scripted answer arrive
+            tokio::time::sleep(Duration::from_millis(20)).await;
+        }
+        Step::TimeoutWhileQueued { search, adapted, answered } => {
+            cx.wire.block_writes(true);
+            // the blocker: an ordinary operation whose request cannot be written for now
+            let (_, mk_a) = cx.plan(Plan::Answer { entries: 0, rc: 0, open: false });
+            let mut l2 = cx.ldap.clone();
+            let jh = tokio::spawn(async move { l2.delete(&mk_a).await.map(|r| r.rc).map_err(|e| err_kind(&e)) });
+            quiesce().await;
+            let (_, mk) = cx.plan(if *answered { Plan::Answer { entries: 1, rc: 0, open: false } } else { Plan::Silent { late: false } });
+            cx.ldap.with_timeout(Duration::from_millis(50));
+            if *search {
+                let s = if *adapted { cx.ldap.streaming_search_with(EntriesOnly::new(), &mk, Scope::Subtree, "(a=b)", vec!["a"]).await } else { cx.ldap.streaming_search(&mk, Scope::Subtree, "(a=b)", vec!["a"]).await };
+                match s {
+                    Err(ldap3::LdapError::Timeout { .. }) => {}
+                    Err(e) => fail!("c13:op-failed", "queued search start failed with {}", err_kind(&e)),
+                    Ok(mut s) => {
+                        // (a start that does not wait for the driver: the timeout then hits the first next())
+                        let r = s.next().await;
+                        ensure!(matches!(r, Err(ldap3::LdapError::Timeout { .. })), "c13:timeout-expected", "search queued behind a blocked socket did not time out");
+                        let _ = s.finish().await;
+                    }
+                }
+            } else {
+                let r = simops::exec_single(&mut cx.ldap, Single::Compare, &mk).await;
+                ensure!(matches!(r, Err(ldap3::LdapError::Timeout { .. })), "c13:timeout-expected", "operation queued behind a blocked socket returned {:?}", r.map(|r| r.rc).map_err(|e| err_kind(&e)));
+            }
+            cx.last_timed_out = Some(cx.ldap.last_id());
+            cx.wire.block_writes(false);
+            match tokio::time::timeout(Duration::from_secs(3600), jh).await {
+                Ok(Ok(Ok(0))) => {}
+                other => fail!("c13:op-failed", "the operation whose request was held up by the full send buffer ended with {:?}", other),
+            }
+            cx.sh.lock().unwrap().silent_ids.clear();
+        }
         Step::Rewind(k) => {
             let mut m = cx.msgmap.lock().unwrap();
             m.0 = (m.0 - *k as i32).max(0);
@@ -374,6 +458,8 @@ fn step_class(s: &Step) -> String {
         Step::SearchTimeout { adapted, .. } => format!("search-timeout-{}", if *adapted { "adapted" } else { "direct" }),
         Step::Unsolicited(_) => "unsolicited".into(),
         Step::Rewind(_) => "rewind-id-counter".into(),
+        Step::TimeoutTie { search, .. } => format!("timeout-tie-{}", if *search { "search" } else { "single" }),
+        Step::TimeoutWhileQueued { search, answered, .. } => format!("timeout-while-queued-{}-{}", if *search { "search" } else { "single" }, if *answered { "answered-later" } else { "never-answered" }),
     }
 }
 
@@ -449,7 +535,7 @@ pub fn property() -> Property {
     Property {
         id: "C13",
         level: "exploration",
-        rule: "generated histories of 3-14 steps, repeated 1-3 times on one connection (up to 42 steps), mixing: the 7 single-result operations (success and error codes), operations and searches that time out against a silent server (with or without a late reply), direct / EntriesOnly / search() / PagedResults / [EntriesOnly, PagedResults] searches with 0-4 entries (x 1-3 pages) read to the end or finish()ed after k items - also while the search is still OPEN at the driver (the server withholds the final result of the page / search and sends it late), abandon of a finished, timed-out, in-flight or never-issued id, unsolicited responses, and rewinds of the id counter (as after a wrap-around) so that later operations are handed the ids of past ones and must work normally. Oracle at every quiescent point (virtual-clock quiescence: no task can run): the id table's in-use set is empty and both routing-map gauges are 0; abandon puts an AbandonRequest naming exactly the id on the wire, releases a waiting caller with an error, and the id leaves the in-use set. Non-trivial: >=3 steps including >=1 search, abandon or timeout. Distinct = debug rendering of the step list.",
+        rule: "generated histories of 3-14 steps, repeated 1-3 times on one connection (up to 42 steps), mixing: the 7 single-result operations (success and error codes), operations and searches that time out against a silent server (with or without a late reply), replies/entries written at exactly the instant the timeout fires (tie: either outcome is accepted, the driver sees reply and scrub request in the same turn under the seeded select! order), operations and search starts that time out while their request is still queued behind a full socket send buffer (the server answers them later or never), direct / EntriesOnly / search() / PagedResults / [EntriesOnly, PagedResults] searches with 0-4 entries (x 1-3 pages) read to the end or finish()ed after k items - also while the search is still OPEN at the driver (the server withholds the final result of the page / search and sends it late), abandon of a finished, timed-out, in-flight or never-issued id, unsolicited responses, and rewinds of the id counter (as after a wrap-around) so that later operations are handed the ids of past ones and must work normally. Oracle at every quiescent point (virtual-clock quiescence: no task can run): the id table's in-use set is empty and both routing-map gauges are 0; abandon puts an AbandonRequest naming exactly the id on the wire, releases a waiting caller with an error, and the id leaves the in-use set. Non-trivial: >=3 steps including >=1 search, abandon or timeout. Distinct = debug rendering of the step list.",
         assumptions: &["hooks verif_msgmap / verif_gauges expose the id table and the sizes of the routing maps", "streams dropped without finish() are not 'completed' and are not generated", "server disconnects are C04's"],
         lanes: vec![Box::new(PLane { name: "histories", cases: |t| t.pick(1_000, 15_000), strat, check })],
         workers: (8, 16),
